@@ -90,10 +90,55 @@ func (w *World) hookSites() map[string][]hookSite {
 
 // rewriteHooked returns the source of file with the bodies of hooked functions redirected.
 func rewriteHooked(file string, sites []hookSite) ([]byte, error) {
+	return rewriteSource(file, nil, sites, nil)
+}
+
+// insertYields puts a verifYield("<base>:<line>") call before every statement that starts on one
+// of the given lines (schedule points of a BMC replay).
+func insertYields(fset *token.FileSet, f *ast.File, base string, lines map[int]bool) {
+	var fix func(list []ast.Stmt) []ast.Stmt
+	fix = func(list []ast.Stmt) []ast.Stmt {
+		var out []ast.Stmt
+		for _, st := range list {
+			line := fset.Position(st.Pos()).Line
+			if lines[line] {
+				if _, isDecl := st.(*ast.DeclStmt); !isDecl {
+					call := &ast.ExprStmt{X: &ast.CallExpr{Fun: ast.NewIdent("verifYield"), Args: []ast.Expr{&ast.BasicLit{Kind: token.STRING, Value: fmt.Sprintf("%q", fmt.Sprintf("%s:%d", base, line))}}}}
+					out = append(out, call)
+				}
+			}
+			out = append(out, st)
+		}
+		return out
+	}
+	ast.Inspect(f, func(n ast.Node) bool {
+		switch x := n.(type) {
+		case *ast.BlockStmt:
+			x.List = fix(x.List)
+		case *ast.CaseClause:
+			x.Body = fix(x.Body)
+		case *ast.CommClause:
+			x.Body = fix(x.Body)
+		}
+		return true
+	})
+}
+
+// rewriteSource applies hook redirection and/or yield insertion to a source file (or to src when given).
+func rewriteSource(file string, src []byte, sites []hookSite, yieldLines map[int]bool) ([]byte, error) {
 	fset := token.NewFileSet()
-	f, err := parser.ParseFile(fset, file, nil, parser.ParseComments)
+	var f *ast.File
+	var err error
+	if src != nil {
+		f, err = parser.ParseFile(fset, file, src, parser.ParseComments)
+	} else {
+		f, err = parser.ParseFile(fset, file, nil, parser.ParseComments)
+	}
 	if err != nil {
 		return nil, err
+	}
+	if len(yieldLines) > 0 {
+		insertYields(fset, f, filepath.Base(file), yieldLines)
 	}
 	var flags []string
 	for _, d := range f.Decls {
@@ -287,4 +332,201 @@ func TestVerifReplay(t *testing.T) {
 		}
 	}
 	return dir, ok, output
+}
+
+// ---- native replay of BMC schedules ----
+
+type bmcStepJSON struct {
+	Threads []int  `json:"threads"`
+	Park    bool   `json:"park"`
+	Clock   uint64 `json:"clock"`
+	Desc    string `json:"desc"`
+}
+
+type bmcScheduleJSON struct {
+	Threads []string            `json:"threads"`
+	Steps   []bmcStepJSON       `json:"steps"`
+	Starts  map[string][]string `json:"starts"` // per thread index: "file:line" of each fired transaction's first event
+	Nondet  map[string]map[string][]uint64 `json:"nondet"`
+	Vars    map[string]uint64   `json:"vars"` // setup-phase inputs
+}
+
+// ReplayBMC instruments the sources at the schedule points of the system, forces the schedule of the
+// counterexample natively (with the race detector on) and reports whether the obligation fails there.
+func (w *World) ReplayBMC(id string, bs BMCSpec, sys *bmcSystem, ob *obligation, model map[string]uint64, dir string) (ok bool, output string) {
+	sched := bmcScheduleJSON{Starts: map[string][]string{}, Nondet: map[string]map[string][]uint64{}, Vars: map[string]uint64{}}
+	for _, tt := range sys.trees {
+		sched.Threads = append(sched.Threads, tt.name)
+	}
+	posOf := func(ev *Event) string {
+		if !ev.Pos.IsValid() {
+			return ""
+		}
+		p := w.ld.Fset.Position(ev.Pos)
+		return fmt.Sprintf("%s:%d", filepath.Base(p.Filename), p.Line)
+	}
+	clockKey := ""
+	for _, c := range sys.cells {
+		if strings.HasSuffix(c.Desc, ".ghostClock") {
+			clockKey = c.Key
+		}
+	}
+	for k := 0; k < sys.K; k++ {
+		var st bmcStepJSON
+		for t := 0; t < sys.nthreads; t++ {
+			a, b := model[fmt.Sprintf("pc%d!%d", t, k)], model[fmt.Sprintf("pc%d!%d", t, k+1)]
+			if a == b {
+				continue
+			}
+			for _, tx := range sys.txs[t] {
+				if uint64(tx.id) == a {
+					st.Threads = append(st.Threads, t)
+					if tx.first.Kind == "park" {
+						st.Park = true
+					}
+					st.Desc += fmt.Sprintf("%s:%s@%s ", sys.trees[t].name, tx.first.Kind, posOf(tx.first))
+					key := fmt.Sprint(t)
+					sched.Starts[key] = append(sched.Starts[key], posOf(tx.first))
+				}
+			}
+		}
+		if len(st.Threads) == 0 {
+			continue
+		}
+		if clockKey != "" {
+			st.Clock = model[fmt.Sprintf("%s!%d", clockKey, k+1)]
+		}
+		sched.Steps = append(sched.Steps, st)
+	}
+	for k, v := range model {
+		if !strings.Contains(k, "!") && !strings.Contains(k, "#") {
+			sched.Vars[k] = v
+		}
+	}
+	// thread-local nondeterministic draws, per thread and base name, in tree order
+	for t, tt := range sys.trees {
+		m := map[string][]uint64{}
+		seen := map[string]bool{}
+		var walk func(n *TNode)
+		visited := map[*TNode]bool{}
+		walk = func(n *TNode) {
+			if visited[n] {
+				return
+			}
+			visited[n] = true
+			if n.ev != nil && n.ev.Kind == "nondet" && !seen[n.ev.Var.Name] {
+				seen[n.ev.Var.Name] = true
+				m[n.ev.Name] = append(m[n.ev.Name], model[n.ev.Var.Name])
+			}
+			for _, e := range n.edges {
+				walk(e.to)
+			}
+		}
+		walk(tt.root)
+		sched.Nondet[fmt.Sprint(t)] = m
+	}
+	sb, _ := json.MarshalIndent(sched, "", " ")
+	os.WriteFile(filepath.Join(dir, "schedule.json"), sb, 0o644)
+
+	// yield lines per source file: first events of all transactions
+	yields := map[string]map[int]bool{}
+	for t := range sys.txs {
+		for _, tx := range sys.txs[t] {
+			if !tx.first.Pos.IsValid() {
+				continue
+			}
+			p := w.ld.Fset.Position(tx.first.Pos)
+			if yields[p.Filename] == nil {
+				yields[p.Filename] = map[int]bool{}
+			}
+			yields[p.Filename][p.Line] = true
+		}
+	}
+	overlay := map[string]string{}
+	ov, _ := harnessOverlay(w.Harness)
+	nativeTmpl, err := os.ReadFile(filepath.Join(w.Harness, "rt", "verif_rt_native.go.tmpl"))
+	if err != nil {
+		return false, err.Error()
+	}
+	hookSites := w.hookSites()
+	for pkg, files := range ov {
+		pd := filepath.Join(dir, pkg)
+		os.MkdirAll(pd, 0o755)
+		for _, f := range files {
+			src, _ := os.ReadFile(f)
+			s := strings.Replace(string(src), "//go:build verif_harness", "// (harness)", 1)
+			virt := filepath.Join(w.Repo, pkg, "zz_"+filepath.Base(f))
+			if yl := yields[virt]; len(yl) > 0 {
+				if out, err := rewriteSource(virt, []byte(s), nil, yl); err == nil {
+					s = string(out)
+				}
+			}
+			dst := filepath.Join(pd, filepath.Base(f))
+			os.WriteFile(dst, []byte(s), 0o644)
+			overlay[virt] = dst
+		}
+		rt := strings.Replace(string(nativeTmpl), "package PKG", "package "+filepath.Base(pkg), 1)
+		dst := filepath.Join(pd, "verif_rt_native.go")
+		os.WriteFile(dst, []byte(rt), 0o644)
+		overlay[filepath.Join(w.Repo, pkg, "zz_verif_rt_native.go")] = dst
+	}
+	files := map[string]bool{}
+	for f := range hookSites {
+		files[f] = true
+	}
+	for f := range yields {
+		if strings.HasPrefix(f, w.Repo) && !strings.Contains(filepath.Base(f), "zz_") {
+			files[f] = true
+		}
+	}
+	for file := range files {
+		src, err := rewriteSource(file, nil, hookSites[file], yields[file])
+		if err != nil {
+			return false, "rewrite " + file + ": " + err.Error()
+		}
+		rel, _ := filepath.Rel(w.Repo, file)
+		dst := filepath.Join(dir, filepath.Dir(rel), "instr_"+filepath.Base(file))
+		os.MkdirAll(filepath.Dir(dst), 0o755)
+		os.WriteFile(dst, src, 0o644)
+		overlay[file] = dst
+	}
+	target := ob.name
+	if ob.kind == "complete" {
+		target = "no-deadlock"
+	}
+	test := fmt.Sprintf(`package %s
+
+import "testing"
+
+func TestVerifReplay(t *testing.T) {
+	verifLoadSchedule()
+	if verifReplayMain(%q, %s) {
+		t.Fatalf("REPLAY-REPRODUCED")
+	}
+}
+`, filepath.Base(bs.Pkg), target, bs.Fn)
+	tdst := filepath.Join(dir, bs.Pkg, "verif_replay_test.go")
+	os.WriteFile(tdst, []byte(test), 0o644)
+	overlay[filepath.Join(w.Repo, bs.Pkg, "zz_verif_replay_test.go")] = tdst
+	mb, _ := json.MarshalIndent(sched.Vars, "", " ")
+	os.WriteFile(filepath.Join(dir, "model.json"), mb, 0o644)
+	obj, _ := json.MarshalIndent(map[string]interface{}{"Replace": overlay}, "", " ")
+	os.WriteFile(filepath.Join(dir, "overlay.json"), obj, 0o644)
+	cmdline := fmt.Sprintf("cd %s && VERIF_MODEL=%s VERIF_SCHEDULE=%s GOFLAGS=-mod=mod GOPROXY=off GOSUMDB=off GOTOOLCHAIN=local timeout 900 go test -race -vet=off -count=1 -overlay %s -run '^TestVerifReplay$' -v ./%s/\n",
+		w.Repo, filepath.Join(dir, "model.json"), filepath.Join(dir, "schedule.json"), filepath.Join(dir, "overlay.json"), bs.Pkg)
+	os.WriteFile(filepath.Join(dir, "cmd.sh"), []byte("#!/bin/sh\n# forces the solver's schedule on the real code (race detector on)\n"+cmdline), 0o755)
+	out, _ := exec.Command("/bin/sh", filepath.Join(dir, "cmd.sh")).CombinedOutput()
+	output = string(out)
+	os.WriteFile(filepath.Join(dir, "output.txt"), out, 0o644)
+	switch ob.kind {
+	case "race":
+		ok = strings.Contains(output, "DATA RACE")
+	case "complete":
+		ok = strings.Contains(output, "REPLAY-ASSERT-FAILED no-deadlock")
+	case "nopanic":
+		ok = strings.Contains(output, "REPLAY-PANIC")
+	default:
+		ok = strings.Contains(output, "REPLAY-ASSERT-FAILED "+ob.name)
+	}
+	return ok, output
 }
